@@ -174,8 +174,8 @@ Section ConicRefract.
         with (/ sqrt (1 - (1 + - (u*u))*(x*x+y*y)/(Rc*Rc))) by (field; lra).
       apply Rinv_0_lt_compat, Hs0. }
     generalize (rtarget_unit Rc u f x y z sg Hf2 Hq' Hs2 H2).
-    generalize (rtarget_snell Rc u f x y z sg Hf2 Hq' H2).
-    generalize (rtarget_dot_grad Rc u f x y z sg Hf2 Hq' H2).
+    generalize (rtarget_snell Rc u f x y z sg Hf2 Hq' Hs2 H2).
+    generalize (rtarget_dot_grad Rc u f x y z sg Hf2 Hq' Hs2 H2).
     fold rho2. fold q.
     set (tx := sg * (- x) / rho2). set (ty := sg * (- y) / rho2). set (tz := sg * (f - z) / rho2).
     intros Hdg (Sx & Sy & Sz) Hunit.
@@ -210,3 +210,221 @@ Section ConicRefract.
     - transitivity (z + (sg*sg)*(f - z)); [field; assumption|rewrite Hs2; ring].
   Qed.
 End ConicRefract.
+
+(** ** 4. aplanatic points of a spherical surface between media n1 | n2.
+    The ray is aimed at (tau = 1, virtual object) or comes from (tau = -1) the point O at
+    Rc (n1+n2)/n1 from the vertex; after refraction its line passes through O' at Rc (n1+n2)/n2,
+    and  n2 |PO'| - n1 |PO| = 0  for every point P of the sphere (equal optical paths). *)
+Section AplanaticSphere.
+  Variables Rc n1 n2 x y z tau : R.
+  Hypothesis HR : Rc <> 0.
+  Hypothesis Hn1 : 0 < n1.
+  Hypothesis Hn2 : 0 < n2.
+  Hypothesis Hsheet : on_vertex_sheet Rc 0 x y z.
+  Hypothesis Htau : tau = 1 \/ tau = -1.
+  Let o := aplanatic_object Rc n1 n2.
+  Let o' := aplanatic_image Rc n1 n2.
+  Let D := sqrt (x*x + y*y + (z - o)*(z - o)).
+  Let D' := sqrt (x*x + y*y + (z - o')*(z - o')).
+  Hypothesis HP : 0 < x*x + y*y + (z - o')*(z - o').       (* P is not the image point itself *)
+  Hypothesis Hside : 0 < (z - o) * (z - o').               (* P lies before (or beyond) both conjugates *)
+  (** incoming direction tau (O - P)/|PO| *)
+  Let L := tau * (0 - x) / D. Let M := tau * (0 - y) / D. Let N := tau * (o - z) / D.
+
+  Theorem aplanatic_stigmatic :
+    D = n2 / n1 * D' /\ n2 * D' - n1 * D = 0 /\
+    unit3 L M N /\
+    (let '(nx, ny, nz) := k_std_normal ROps x y Rc 0 in
+     let '(L', M', N') := k_refract ROps nx ny nz n1 n2 L M N in
+     (L', M', N') = (tau * (0 - x) / D', tau * (0 - y) / D', tau * (o' - z) / D') /\
+     unit3 L' M' N' /\ through_axis_point x y z L' M' N' (tau * D') o').
+  Proof.
+    assert (Ht2 : tau*tau = 1) by (destruct Htau; subst; ring).
+    set (mu := n2 / n1).
+    assert (Hmu : 0 < mu) by (unfold mu; apply Rdiv_lt_0_compat; assumption).
+    assert (Hmu0 : mu <> 0) by lra.
+    assert (Eo : o = Rc * (1 + mu)) by (unfold o, aplanatic_object, mu; field; lra).
+    assert (Eo' : o' = Rc * (1 + / mu)) by (unfold o', aplanatic_image, mu; field; split; lra).
+    destruct Hsheet as (Hq & Hrad & Hsh). unfold on_conic in Hq.
+    assert (Hq' : x*x + y*y + z*z - 2*Rc*z = 0) by lra.
+    assert (HD' : 0 < D') by (apply sqrt_lt_R0; assumption).
+    assert (HD'2 : D' * D' = x*x + y*y + (z - o')*(z - o')) by (apply sqrt_sqrt; lra).
+    assert (HA : x*x + y*y + (z - o)*(z - o) = (mu*D')*(mu*D')).
+    { rewrite Eo. rewrite (apollonius Rc mu x y z Hmu0 Hq'). rewrite <- Eo'.
+      transitivity (mu*mu*(D'*D')); [rewrite HD'2; reflexivity|ring]. }
+    assert (HD : D = mu * D').
+    { unfold D. rewrite HA. apply sqrt_square. apply Rmult_le_pos; lra. }
+    split; [exact HD|].
+    split; [rewrite HD; unfold mu; field; lra|].
+    assert (HDpos : 0 < D) by (rewrite HD; apply Rmult_lt_0_compat; assumption).
+    assert (HD2 : D * D = x*x + y*y + (z - o)*(z - o)) by (rewrite HA, HD; ring).
+    assert (HU : unit3 L M N).
+    { unfold unit3, L, M, N.
+      transitivity ((tau*tau) * (x*x + y*y + (z - o)*(z - o)) / (D*D)); [field; lra|].
+      rewrite Ht2, <- HD2. field. lra. }
+    split; [exact HU|].
+    set (q := Rc - z).
+    assert (Hqq : Rc * sqrt (1 - (1 + 0)*(x*x+y*y)/(Rc*Rc)) = q) by (rewrite <- Hsh; unfold q; ring).
+    assert (Hs0 : 0 < sqrt (1 - (1 + 0)*(x*x+y*y)/(Rc*Rc))) by (apply sqrt_lt_R0, Hrad).
+    assert (Hq0 : q <> 0) by (rewrite <- Hqq; apply Rmult_integral_contrapositive_currified; lra).
+    rewrite (std_normal_h x y Rc 0). rewrite Hqq.
+    set (hx := x / q). set (hy := y / q). set (hh := hx*hx + hy*hy + 1).
+    assert (Hhh : 0 < hh) by (unfold hh; nra).
+    assert (Hm : sqrt hh * sqrt hh = hh) by (apply sqrt_sqrt; lra).
+    assert (Hm0 : 0 < sqrt hh) by (apply sqrt_lt_R0; assumption).
+    set (m := sqrt hh) in *.
+    assert (Hx : x = q * hx) by (unfold hx; field; assumption).
+    assert (Hy : y = q * hy) by (unfold hy; field; assumption).
+    set (tx := tau * (0 - x) / D'). set (ty := tau * (0 - y) / D'). set (tz := tau * (o' - z) / D').
+    assert (HUt : tx*tx + ty*ty + tz*tz = 1).
+    { unfold tx, ty, tz.
+      transitivity ((tau*tau) * (x*x + y*y + (z - o')*(z - o')) / (D'*D')); [field; lra|].
+      rewrite Ht2, <- HD'2. field. lra. }
+    generalize (aplanatic_snell_z Rc mu z Hmu0) (aplanatic_dot_O Rc mu x y z Hmu0 Hq')
+               (aplanatic_dot_O' Rc mu x y z Hmu0 Hq').
+    rewrite <- Eo, <- Eo'. intros Sz DO DO'.
+    assert (Eu : n1 / n2 = / mu) by (unfold mu; field; split; lra).
+    assert (RC : k_refract ROps (hx / m) (hy / m) (-1 / m) n1 n2 L M N = (tx, ty, tz)).
+    { apply (refract_char (hx / m) (hy / m) (-1 / m) n1 n2 L M N tx ty tz (- tau * (1 - / (mu*mu)) * q * m / D')).
+      - exact HU.
+      - transitivity (hh / (m*m)); [unfold hh; field; lra|rewrite Hm; field; lra].
+      - exact HUt.
+      - rewrite Eu. unfold tx, L. rewrite HD. rewrite Hx at 1 2. field. repeat split; lra.
+      - rewrite Eu. unfold ty, M. rewrite HD. rewrite Hy at 1 2. field. repeat split; lra.
+      - rewrite Eu. unfold tz, N. rewrite HD.
+        transitivity (tau / D' * ((o' - z) - / (mu*mu) * (o - z)) + / mu * (tau * (o - z) / (mu*D'))); [field; split; lra|].
+        rewrite Sz. unfold q. field. repeat split; lra.
+      - replace ((tx * (hx / m) + ty * (hy / m) + tz * (-1 / m)) * (L * (hx / m) + M * (hy / m) + N * (-1 / m)))
+          with ((tau*tau) * (((0 - x)*(q*hx) + (0 - y)*(q*hy) + (o' - z)*(- q)) * ((0 - x)*(q*hx) + (0 - y)*(q*hy) + (o - z)*(- q)))
+                / (D' * D * (q*q) * (m*m))) by (unfold tx, ty, tz, L, M, N; field; repeat split; lra).
+        rewrite <- Hx, <- Hy. replace (- q) with (z - Rc) by (unfold q; ring).
+        rewrite DO, DO', Ht2, Hm.
+        replace (1 * (Rc * / mu * (z - o) * (Rc * mu * (z - o'))) / (D' * D * (q*q) * hh))
+          with ((Rc*Rc) * ((z - o)*(z - o')) * / (D' * D * (q*q) * hh)) by (field; repeat split; lra).
+        apply Rmult_lt_0_compat; [apply Rmult_lt_0_compat; [nra|assumption]|].
+        assert (Hqq2 : 0 < q*q) by nra.
+        apply Rinv_0_lt_compat. apply Rmult_lt_0_compat; [apply Rmult_lt_0_compat; [apply Rmult_lt_0_compat|]|]; assumption. }
+    rewrite RC. split; [reflexivity|]. split; [exact HUt|].
+    unfold through_axis_point, tx, ty, tz. repeat split.
+    - transitivity (x - (tau*tau)*x); [field; lra|rewrite Ht2; ring].
+    - transitivity (y - (tau*tau)*y); [field; lra|rewrite Ht2; ring].
+    - transitivity (z + (tau*tau)*(o' - z)); [field; lra|rewrite Ht2; ring].
+  Qed.
+End AplanaticSphere.
+
+(** ** 5. a spherical surface and its own centre of curvature: a ray along a radius (leaving the centre,
+    w = +-|Rc| > 0 ... or aimed at it) meets the sphere at  P = C + w d  with the normal along the ray;
+    a mirror sends it back on itself, a refracting surface leaves it undeviated. *)
+Section SphereCentre.
+  Variables Rc L M N w : R.
+  Hypothesis HR : Rc <> 0.
+  Hypothesis Hd : L*L + M*M + N*N = 1.
+  Hypothesis Hw : w*w = Rc*Rc.
+  Hypothesis Hside : w * N * Rc < 0.           (* P is on the vertex side of the centre *)
+  Let px := 0 + w*L. Let py := 0 + w*M. Let pz := Rc + w*N.
+
+  Lemma sc_N : N <> 0. Proof. intro E; rewrite E in Hside; lra. Qed.
+  Lemma sc_w : w <> 0. Proof. intro E; rewrite E in Hside; lra. Qed.
+
+  Lemma sc_rad : 1 - (1 + 0)*(px*px + py*py)/(Rc*Rc) = N*N.
+  Proof.
+    unfold px, py. transitivity (1 - (w*w)*(L*L + M*M)/(Rc*Rc)); [field; assumption|].
+    rewrite Hw. replace (L*L + M*M) with (1 - N*N) by lra. field. assumption.
+  Qed.
+
+  Lemma sc_sheet : on_vertex_sheet Rc 0 px py pz.
+  Proof.
+    generalize sc_N; intros HN.
+    unfold on_vertex_sheet. rewrite sc_rad. repeat split.
+    - unfold on_conic, px, py, pz.
+      transitivity ((w*w)*(L*L + M*M + N*N) - Rc*Rc); [ring|rewrite Hw, Hd; ring].
+    - nra.
+    - unfold pz. fold (Rsqr N). rewrite sqrt_Rsqr_abs.
+      destruct (Rcase_abs N) as [Hn|Hn].
+      + rewrite Rabs_left by assumption. assert (0 < w*Rc) by nra.
+        assert (w = Rc) by nra. subst w. ring.
+      + assert (0 < N) by lra. rewrite Rabs_right by lra. assert (w*Rc < 0) by nra.
+        assert (w = - Rc) by nra. subst w. ring.
+  Qed.
+
+  Let kap := - Rabs N / N.
+  Lemma sc_kap2 : kap*kap = 1.
+  Proof.
+    generalize sc_N; intros HN. unfold kap.
+    transitivity ((Rabs N * Rabs N) / (N*N)); [field; assumption|].
+    rewrite <- Rabs_mult, Rabs_right by nra. field. assumption.
+  Qed.
+
+  (** the kernel's normal at P is along the ray *)
+  Lemma sc_normal : k_std_normal ROps px py Rc 0 = (kap*L, kap*M, kap*N).
+  Proof.
+    generalize sc_N sc_w; intros HN Hw0.
+    destruct sc_sheet as (_ & _ & Hsh).
+    rewrite (std_normal_h px py Rc 0). rewrite <- Hsh.
+    replace (Rc - (1 + 0)*pz) with (- (w*N)) by (unfold pz; ring).
+    assert (Hhh : px / - (w*N) * (px / - (w*N)) + py / - (w*N) * (py / - (w*N)) + 1 = (/ Rabs N)*(/ Rabs N)).
+    { unfold px, py. transitivity ((L*L + M*M + N*N) / (N*N)); [field; split; assumption|].
+      rewrite Hd. rewrite <- Rinv_mult. rewrite <- Rabs_mult, Rabs_right by nra. field. assumption. }
+    rewrite Hhh. rewrite sqrt_square by (left; apply Rinv_0_lt_compat, Rabs_pos_lt; assumption).
+    assert (HA : Rabs N <> 0) by (apply Rabs_no_R0; assumption).
+    unfold kap, px, py. f_equal; [f_equal|]; field; repeat split; assumption.
+  Qed.
+
+  Theorem sphere_centre_mirror :
+    on_vertex_sheet Rc 0 px py pz /\
+    (let '(nx, ny, nz) := k_std_normal ROps px py Rc 0 in
+     k_reflect ROps nx ny nz L M N = (- L, - M, - N)) /\
+    through_axis_point px py pz (- L) (- M) (- N) w Rc.
+  Proof.
+    split; [exact sc_sheet|]. split.
+    - rewrite sc_normal.
+      generalize (reflect_components (kap*L) (kap*M) (kap*N) L M N).
+      destruct (k_reflect ROps _ _ _ L M N) as [[a b] c]. cbn [fst snd]. intros (-> & -> & ->).
+      assert (E : L*(kap*L) + M*(kap*M) + N*(kap*N) = kap) by (transitivity (kap*(L*L+M*M+N*N)); [ring|rewrite Hd; ring]).
+      rewrite E. generalize sc_kap2; intros K.
+      f_equal; [f_equal|].
+      + transitivity (L - 2*(kap*kap)*L); [ring|rewrite K; ring].
+      + transitivity (M - 2*(kap*kap)*M); [ring|rewrite K; ring].
+      + transitivity (N - 2*(kap*kap)*N); [ring|rewrite K; ring].
+    - unfold through_axis_point, px, py, pz. repeat split; ring.
+  Qed.
+
+  Theorem sphere_centre_refract n1 n2 :
+    n2 <> 0 ->
+    let '(nx, ny, nz) := k_std_normal ROps px py Rc 0 in
+    k_refract ROps nx ny nz n1 n2 L M N = (L, M, N).
+  Proof.
+    intros Hn2. rewrite sc_normal. generalize sc_kap2; intros K.
+    apply (refract_char (kap*L) (kap*M) (kap*N) n1 n2 L M N L M N ((1 - n1/n2)*kap)).
+    - exact Hd.
+    - transitivity ((kap*kap)*(L*L+M*M+N*N)); [ring|rewrite K, Hd; ring].
+    - exact Hd.
+    - transitivity (n1/n2*L + (1 - n1/n2)*(kap*kap)*L); [rewrite K; ring|ring].
+    - transitivity (n1/n2*M + (1 - n1/n2)*(kap*kap)*M); [rewrite K; ring|ring].
+    - transitivity (n1/n2*N + (1 - n1/n2)*(kap*kap)*N); [rewrite K; ring|ring].
+    - replace ((L*(kap*L) + M*(kap*M) + N*(kap*N)) * (L*(kap*L) + M*(kap*M) + N*(kap*N)))
+        with ((kap*kap)*((L*L+M*M+N*N)*(L*L+M*M+N*N))) by ring.
+      rewrite K, Hd. lra.
+  Qed.
+End SphereCentre.
+
+(** the exact hit: a ray leaving the centre of curvature towards the vertex side meets the sphere after |Rc|,
+    on the vertex sheet, and a mirror returns it to the centre after another |Rc| (total path 2 |Rc|) *)
+Theorem sphere_centre_mirror_trace Rc L M N :
+  Rc <> 0 -> L*L + M*M + N*N = 1 -> N * Rc < 0 ->
+  k_std_distance XOps (Fin 0) (Fin N) (Fin L) (Fin M) (Fin Rc) (Fin 0) (Fin 0) (Fin Rc) = Fin (Rabs Rc) /\
+  let px := 0 + Rabs Rc * L in let py := 0 + Rabs Rc * M in let pz := Rc + Rabs Rc * N in
+  on_vertex_sheet Rc 0 px py pz /\
+  (let '(nx, ny, nz) := k_std_normal ROps px py Rc 0 in k_reflect ROps nx ny nz L M N = (- L, - M, - N)) /\
+  through_axis_point px py pz (- L) (- M) (- N) (Rabs Rc) Rc /\ Rabs Rc + Rabs Rc = 2 * Rabs Rc.
+Proof.
+  intros HR Hd Hs.
+  assert (HN : N <> 0) by (intro E; rewrite E in Hs; lra).
+  split; [apply std_distance_from_centre; assumption|].
+  assert (Hw : Rabs Rc * Rabs Rc = Rc*Rc) by (rewrite <- Rabs_mult, Rabs_right; [reflexivity|nra]).
+  assert (Hside : Rabs Rc * N * Rc < 0).
+  { assert (0 < Rabs Rc) by (apply Rabs_pos_lt; assumption). 
+    replace (Rabs Rc * N * Rc) with (Rabs Rc * (N * Rc)) by ring. nra. }
+  destruct (sphere_centre_mirror Rc L M N (Rabs Rc) HR Hd Hw Hside) as (A & B & C).
+  cbv zeta. split; [exact A|]. split; [exact B|]. split; [exact C|ring].
+Qed.
